@@ -16,7 +16,10 @@ from qv.report import Result
 SOURCES = re.compile(
     r"(::to_lowercase$|::to_uppercase$|::to_ascii_lowercase$|::to_ascii_uppercase$|::make_ascii_lowercase$|::make_ascii_uppercase$"
     r"|impl str>::trim(_start|_end|_matches|_start_matches|_end_matches|_left|_right)?$|impl str>::replace(n)?$|impl str>::repeat$"
-    r"|impl char>::to_(ascii_)?(lower|upper)case$|::nfc$|::nfkc$|::nfd$)"
+    r"|impl char>::to_(ascii_)?(lower|upper)case$|::nfc$|::nfkc$|::nfd$"
+    # taking a name apart: the pieces are no longer the identifier that was written
+    r"|impl str>::(r?split_once|r?split|r?splitn|split_terminator|split_at|split_at_checked|split_whitespace|split_inclusive|strip_prefix|strip_suffix|r?split_off)$"
+    r"|std::string::String::(truncate|pop|remove|drain|split_off|retain|insert|insert_str|push|push_str)$)"
 )
 # calls through which a tainted value stays the same text
 TRANSPARENT = re.compile(
@@ -29,6 +32,11 @@ COMPARISONS = re.compile(
     r"|::is_some$|::is_none$|impl str>::find$|::is_char_boundary$|as std::hash::Hash>::hash$|::contains_key$|::get$|::binary_search.*$|core::str::traits::.*::(eq|ne)$)"
 )
 
+
+# one named symbol each, with the reason
+EXCEPTIONS = {
+    ("quil_rs::parser::common::parse_pauli_word::{closure#0}", "split"): "a Pauli word (e.g. `ZXZ`) is decoded letter by letter into PauliGate enum values; no part of it is stored as a name",
+}
 
 UNESCAPE_PAIRS = {('\\"', '"'), ("\\\\", "\\")}
 
@@ -148,6 +156,11 @@ def run(ctx):
             fl = per_src.get((bb, spath), [])
             n = sum(1 for k in res.nontrivial if k.startswith("K5|case-taint|%s|" % f.path))
             key = "K5|case-taint|%s|%s#%d" % (f.path, spath.rsplit("::", 1)[-1], n)
+            exc = EXCEPTIONS.get((f.path, spath.rsplit("::", 1)[-1]))
+            if fl and exc:
+                res.site(key, True, {"fn": f.path, "source": spath, "verdict": "exception: " + exc})
+                res.exceptions.append((key, exc))
+                continue
             res.site(key, True, {"fn": f.path, "source": spath, "loc": f.loc(t["sp"]), "sinks": [d for d, _ in fl], "verdict": "comparison only" if not fl else "VIOLATION"})
             if fl:
                 res.find(key, f.loc(fl[0][1]), "the result of %s (a case-mapped / normalised copy of program text) flows into %s in %s: the parsed program holds a name that differs from the text" % (spath, "; ".join(d for d, _ in fl), f.path.replace("quil_rs::", "")), "`DECLARE Theta REAL; RX(Theta) 0` refers to region `theta` after parsing")
